@@ -479,6 +479,12 @@ def shareWithProofFromRaw (s : RawBefpShare) (rp : RawProof) : Out ShareWithProo
           | none => .err
           | some pa => .ok ⟨ns, s.data.drop NS_SIZE, proof, pa⟩
 
+/-- one entry of `shares`: `if share.proof.is_some() { share.try_into().map(Some) } else { Ok(None) }` -/
+def befpShareFromRaw (s : RawBefpShare) : Out (Option ShareWithProof) :=
+  match s.proof with
+  | some rp => (shareWithProofFromRaw s rp).bind fun x => Out.ok (some x)
+  | none => Out.ok none
+
 /-- `TryFrom<RawBadEncodingFraudProof> for BadEncodingFraudProof` -/
 def befpFromRaw (raw : RawBefp) : Out Befp :=
   match axisOfI32 raw.axis with
@@ -486,10 +492,7 @@ def befpFromRaw (raw : RawBefp) : Out Befp :=
   | some axis =>
     if raw.index > U16_MAX then .err
     else
-      (collectOut (fun (s : RawBefpShare) =>
-          match s.proof with
-          | some rp => (shareWithProofFromRaw s rp).bind fun x => Out.ok (some x)
-          | none => Out.ok none) raw.shares).bind fun shares =>
+      (collectOut befpShareFromRaw raw.shares).bind fun shares =>
         if raw.height > I64_MAX then .err            -- `Height::try_from(u64)`
         else if raw.headerHash.length ≠ 0 ∧ raw.headerHash.length ≠ 32 then .err   -- `Hash::try_from(Vec<u8>)`
         else .ok ⟨raw.height, shares, raw.index, axis⟩
